@@ -12,6 +12,7 @@ bug-compatible, of the string surgery in
   * `expressions/source_code.py` `NixSourceCode.rebuild`
   * `expressions/parenthesis.py` `Parenthesis.rebuild`
   * `expressions/function/call.py` `FunctionCall.rebuild`
+  * `expressions/select.py`      `Select.rebuild` (the branch without default)
   * `expressions/with_statement.py` `WithStatement.rebuild`, `expressions/assertion.py` `Assertion.rebuild`
     (one stated deviation each: the trim of `environment.before` / `condition.before` that `rebuild`
     applies to a copy is left out — `from_cst` never writes these fields, they are `[]` on everything
@@ -164,6 +165,17 @@ def withBodyPart (force absorbable : Bool) (inlineBody fullBody : Text) (indent 
   else if force || containsNL inlineBody then ['\n'] ++ fullBody
   else [' '] ++ inlineBody
 
+/-- `Select.rebuild`: the text between the expression and `.` — the comments in front of `.` and the
+    separator (`attr_sep`, with a leading line break cut off when the expression ends with one) -/
+def selSep (exprStr : Text) (attrGap : Text) (attrBefore : List Trivia) (indent : Nat) : Text :=
+  let l0 := Layout.fromGap attrGap
+  let l := if !attrBefore.isEmpty then { l0 with blankLine := false } else l0
+  let attrIndent := if l.onNewline then l.indent.getD indent else indent
+  let r := formatInterstitialTriviaWithSeparator attrBefore l attrIndent (dropBlankIfItems := false) (inlineSep := [])
+    (stripLeadingNLAfter := some exprStr)
+  let sep := if endsWithNL exprStr && startsWithNL r.2 then r.2.drop 1 else r.2
+  r.1 ++ sep
+
 def kwWith : Text := ['w', 'i', 't', 'h']
 def kwAssert : Text := ['a', 's', 's', 'e', 'r', 't']
 
@@ -270,6 +282,10 @@ def Expr.rebuildA : Expr → Bool → Nat → Bool → Text
     let line := addTrivia before after (kwAssert ++ r1.1 ++ r1.2 ++ condStr ++ r2.1 ++ r2.2 ++ [';']) indent inline
     -- (`between` is part of `body.before`: `asrtFromCst`)
     line ++ (if endsWithNL line then [] else ['\n']) ++ body.rebuildA false indent false
+  | .sel expr attrs attrGap attrBefore before after, noAfter, indent, inline =>
+    let after := if noAfter then [] else after
+    let exprStr := expr.rebuildA false indent true
+    addTrivia before after (exprStr ++ selSep exprStr attrGap attrBefore indent ++ '.' :: attrText attrs) indent inline
 /-- `[item.rebuild(indent, inline) for item in items]` -/
 def rebuildAll : List Expr → Nat → Bool → List Text
   | [], _, _ => []
@@ -447,6 +463,12 @@ def dropCharsP : List FP → Nat → List FP
 def stripIndentPrefixP (ps : List FP) (indent : Nat) : List FP :=
   if indent != 0 && startsWith (spaces indent) (concat ps) then dropCharsP ps indent else ps
 
+/-- the tokens of `.a₁.a₂.….aₙ` -/
+def attrP : List Text → List FP
+  | [] => []
+  | [a] => [.tok a]
+  | a :: rest => .tok a :: .tok ['.'] :: attrP rest
+
 def withBodyPartP (force absorbable : Bool) (inlineBody fullBody : List FP) (indent : Nat) : List FP :=
   if !force && absorbable then .ws [' '] :: stripIndentPrefixP fullBody indent
   else if force || containsNL (concat inlineBody) then .ws ['\n'] :: fullBody
@@ -548,6 +570,12 @@ def Expr.rebuildAP : Expr → Bool → Nat → Bool → List FP
     let line := addTriviaP before after
       ([.tok kwAssert, .ws (r1.1 ++ r1.2)] ++ condP ++ [.ws (r2.1 ++ r2.2), .tok [';']]) indent inline
     line ++ [.ws (if endsWithNL (concat line) then [] else ['\n'])] ++ body.rebuildAP false indent false
+  -- (the comments in front of `.` are written as one whitespace piece with the separator, as for `with`)
+  | .sel expr attrs attrGap attrBefore before after, noAfter, indent, inline =>
+    let after := if noAfter then [] else after
+    let exprP := expr.rebuildAP false indent true
+    addTriviaP before after
+      (exprP ++ [.ws (selSep (concat exprP) attrGap attrBefore indent), .tok ['.']] ++ attrP attrs) indent inline
 def rebuildAllP : List Expr → Nat → Bool → List (List FP)
   | [], _, _ => []
   | e :: rest, indent, inline => e.rebuildAP false indent inline :: rebuildAllP rest indent inline
